@@ -24,11 +24,17 @@ type Acc struct {
 	// WRITE of the same location do (a plain read against an atomic store is left to the auxiliary
 	// free-running -race pass, since the kind of the atomic operation is not tracked).
 	At bool
+	// Al: reached through a local alias of a reference-typed field (x := r.f; ... x.g).  The object
+	// reached is the one r.f pointed to when the alias was taken, so a later write of the field r.f
+	// itself does not conflict with it; an access to the same sub-path does.
+	Al bool
 }
 
-func R(obj unsafe.Pointer, path string, idx int) Acc { return Acc{false, obj, path, idx, false} }
-func W(obj unsafe.Pointer, path string, idx int) Acc { return Acc{true, obj, path, idx, false} }
-func A(obj unsafe.Pointer, path string, idx int) Acc { return Acc{false, obj, path, idx, true} }
+func R(obj unsafe.Pointer, path string, idx int) Acc  { return Acc{false, obj, path, idx, false, false} }
+func W(obj unsafe.Pointer, path string, idx int) Acc  { return Acc{true, obj, path, idx, false, false} }
+func A(obj unsafe.Pointer, path string, idx int) Acc  { return Acc{false, obj, path, idx, true, false} }
+func RA(obj unsafe.Pointer, path string, idx int) Acc { return Acc{false, obj, path, idx, false, true} }
+func WA(obj unsafe.Pointer, path string, idx int) Acc { return Acc{true, obj, path, idx, false, true} }
 
 // MutexState is the scheduler-visible state of a vsync mutex.
 type MutexState struct {
@@ -219,7 +225,7 @@ func conflict(a, b Acc) bool {
 	}
 	if a.Obj != b.Obj || a.Path != b.Path {
 		// a write to a whole field conflicts with accesses below it
-		if a.Obj == b.Obj && (prefixOf(a.Path, b.Path) && a.W || prefixOf(b.Path, a.Path) && b.W) {
+		if a.Obj == b.Obj && (prefixOf(a.Path, b.Path) && a.W && !b.Al || prefixOf(b.Path, a.Path) && b.W && !a.Al) {
 			return true
 		}
 		return false
